@@ -1,8 +1,8 @@
 CONSTANTS
   Kinds = {"finalize_wrapper", "finalize_decorator", "contingency"}
-  MaxOps = 7
-  BodyMsgs = 4
-  HandlerMsgs = 2
+  MaxOps = 9
+  BodyMsgs = 5
+  HandlerMsgs = 3
   Thrown = {"Err", "Stop", "Abort", "Base"}
   InnerRaise = {"ErrI", "BaseI"}
   CatchThrow = TRUE
